@@ -210,7 +210,7 @@ func (n *Notification) encode() ([]byte, error) {
 	b := make([]byte, 2)
 	b[0] = n.Code
 	b[1] = n.Subcode
-	if len(n.Data) > 1 {
+	if len(n.Data) > 0 {
 		b = append(b, n.Data...)
 	}
 	return prependHeader(b, notificationMessageType), nil
